@@ -146,6 +146,9 @@ def run(ctx):
                        '(stated in the source: "DO NOT CHANGE THE ORDER OF FIELDS")']
 
     check_soc_vs_fields(ctx, F, 'R14.1a')
+    from .c11 import check_orientation
+    ctx.rule('R14.1e', 'interleaved child builders re-reverse the remainder of work lists they consume with pop()', 4)
+    check_orientation(ctx, 'R14.1e')
 
     # ---- R14.1b  key coverage of NEXT_FUNCS / PREV_FUNCS ------------------------------------------------------------
     ctx.rule('R14.1b', 'keys of NEXT_FUNCS and PREV_FUNCS == {(cls, None)} + {(cls, f) : f AST-valued field of cls}', 580)
